@@ -60,3 +60,70 @@ def else_part(fn_node, ifnode):
                 i = [k for k, x in enumerate(blk) if x is ifnode][0]
                 return blk[i + 1:]
     return []
+
+
+def _strip_not(test):
+    pol = True
+    while isinstance(test, ast.UnaryOp) and isinstance(test.op, ast.Not):
+        test = test.operand
+        pol = not pol
+    return test, pol
+
+
+def path_conditions(fn_node, stmt):
+    """The branch conditions under which *stmt* runs, as a set of
+    (normalised test without leading not, truth value): tests of enclosing
+    ifs, and - negated - tests of earlier ifs of the enclosing blocks whose
+    body always leaves.  Independent of nesting, polarity and elif/else form."""
+    from ..engine.match import norm
+    from ..engine.srcmodel import _always_leaves
+    out = set()
+
+    def visit(block, conds):
+        for i, st in enumerate(block):
+            cur = set(conds)
+            for prev in block[:i]:
+                if isinstance(prev, ast.If) and not prev.orelse and _always_leaves(prev.body):
+                    t, pol = _strip_not(prev.test)
+                    cur.add((norm(t), not pol))
+                elif isinstance(prev, ast.If) and prev.orelse and _always_leaves(prev.orelse) \
+                        and not _always_leaves(prev.body):
+                    t, pol = _strip_not(prev.test)
+                    cur.add((norm(t), pol))
+            if st is stmt:
+                out.update(cur)
+                return True
+            if isinstance(st, ast.If):
+                t, pol = _strip_not(st.test)
+                if visit(st.body, cur | {(norm(t), pol)}):
+                    return True
+                if visit(st.orelse, cur | {(norm(t), not pol)}):
+                    return True
+            elif isinstance(st, (ast.For, ast.While, ast.With, ast.Try)):
+                for fld in ("body", "orelse", "finalbody"):
+                    if visit(getattr(st, fld, []) or [], cur):
+                        return True
+                for h in getattr(st, "handlers", []):
+                    if visit(h.body, cur):
+                        return True
+        return False
+
+    visit(fn_node.body, set())
+    return out
+
+
+def split_by(fn_node, test_pred, kinds=(ast.Return, ast.Expr, ast.Assign, ast.Raise, ast.AugAssign)):
+    """Statements of the function that run when the test recognised by
+    *test_pred(normalised test text)* is true, resp. false (path conditions,
+    so independent of the layout of the conditional).  Returns
+    (test text or None, [statements when true], [statements when false])."""
+    t_text = None
+    when_t, when_f = [], []
+    for s_ in ast.walk(fn_node):
+        if not isinstance(s_, kinds):
+            continue
+        for t, v in path_conditions(fn_node, s_):
+            if test_pred(t):
+                t_text = t
+                (when_t if v else when_f).append(s_)
+    return t_text, when_t, when_f
